@@ -74,6 +74,18 @@ def gen_cases(rng, tier):
       if groute == "api":
         m["api_containers"] = rng.choice([None, None, "tuple", "generator", "map", "amend_after_write"])
     cases.append({"kind": "excel", "route": route, "model": m, "style": rng.randrange(1 << 30)})
+  # look-alike labels, deterministically: 'Ce-O' next to 'Ce+-O' ('+' collates before '-'): the order of the species
+  # tuples and the order of the 'A-B' strings differ, so a column filled in one order and headed in the other shows
+  for i in range(6 if tier == "quick" else 40):
+    a = spec.label(rng, [], 1.0, 3)
+    x = spec.label(rng, [a], 1.0, 3)
+    a2 = a + rng.choice(["+", "+", "2", "_", "+2"])
+    pairs = [[a, x], [a2, x], [x, x], [a, a2]]
+    rng.shuffle(pairs)
+    route = ["api_class", "potable", "cli", "potable"][i % 4]
+    m = {"type": "pair", "target": "excel", "tab": {"nr": rng.choice([3, 5, 9]), "cutoff": rng.choice([4.0, 6.5])}, "forms": [], "tables": [],
+         "pair": [[p_, q_, {"k": "form", "name": "polynomial", "p": [spec.rfloat(rng, -5, 5), spec.rfloat(rng, 0.1, 2.0)]}] for p_, q_ in pairs]}
+    cases.append({"kind": "excel", "route": route, "model": m, "style": rng.randrange(1 << 30)})
   # row-count sweep (everything small, m*10^k, 2^k, multiples of 5000, each with neighbours): structure and end values
   szs = spec.edge_sizes(tier, multiple_of=1, lo=2)
   for c0 in range(0, len(szs), 12):
